@@ -372,7 +372,7 @@ def run(chk, repo):
            'open() does not register pointers for every GVF file', key=op.qual + '::every-file', fn=op.qual)
 
     # ------------------------------------------------------------------ C06.g
-    chk.rule('C06.g', 'R-KEYS: set identity of a variant record covers the donor range it applies (set() de-duplication is file-order independent)', 2)
+    chk.rule('C06.g', 'R-KEYS: set identity of a variant record covers the donor range / fusion acceptor it applies (set() de-duplication is file-order independent)', 4)
     vr = repo.cls('seqvar.VariantRecord:VariantRecord')
 
     def attr_keys(fn):
@@ -388,8 +388,8 @@ def run(chk, repo):
         raise AnalysisError('anchor=seqvar.VariantRecord:VariantRecord: __hash__ / __eq__ not found')
     chk.uses(hf, ef)
     identity = attr_keys(hf) | attr_keys(ef)
-    getters = [m for nm, m in vr.methods.items() if nm.startswith('get_donor_')]
-    if len(getters) < 2:
+    getters = [m for nm, m in vr.methods.items() if nm.startswith('get_donor_') or nm in ('get_accepter_position', 'accepter_transcript_id')]
+    if len(getters) < 4:
         raise AnalysisError('anchor=seqvar.VariantRecord:VariantRecord: get_donor_* accessors not found')
     uses_set = any(isinstance(n, ast.Call) and call_name(n) == 'set' for n in ast.walk(gi.node))
     for m in getters:
@@ -397,7 +397,8 @@ def run(chk, repo):
         chk.ob('C06.g', f"{m.name}: attribute(s) {sorted(ks)} take part in __hash__ / __eq__ (records are de-duplicated with set(): {uses_set})", hf.where,
                bool(ks) and ks <= identity,
                f"{sorted(ks - identity)} is read when the variant is applied to the graph but is not part of the record identity: two splice events anchored at the "
-               "same position with different donor ranges collapse in set(records), and which one survives depends on the order of the GVF files",
+               "same position with different donor ranges (or two fusions of one donor breakpoint with different acceptors) collapse in set(records), and which "
+               "one survives depends on the order of the GVF files",
                key=f"{hf.qual}::identity-covers::{m.name}", fn=hf.qual)
 
     # ------------------------------------------------------------------ C06.e
